@@ -149,9 +149,9 @@ pub fn run(ctx: &Ctx) -> Evidence {
     let quirks = ctx.quirks("C05");
     let alphabet = storeops::alphabet();
     let n = alphabet.len() as u64;
-    let max_len = ctx.tier.pick(2usize, 3usize);
+    let max_len = 3usize;
     let sampled_len = max_len + 1;
-    let sampled = ctx.tier.pick(40_000u64, 1_500_000u64);
+    let sampled = ctx.tier.pick(60_000u64, 3_000_000u64);
     ev.rule = format!(
         "(a) every request sequence of length 1..={max_len} over the C01 alphabet ({n} requests: set, accepted and rejected cset, delete, pdelete, import) x every position at which ls-subscriptions on {} parents (root, existing, not-yet-existing) are taken, plus {sampled} seeded sequences of length {sampled_len} with a random subscription position; (b) seeded random histories of 300 requests with ls-subscriptions taken and dropped at random positions. After every request each subscription is drained: the last list it received must equal (as a set) what ls of its parent returns (empty when there is no such value); ls/pls of every node are compared with the reference model. Non-trivial: at least one delivered list differed from the previous one and at least one request was rejected or removed a key; distinct = distinct (sequence, subscription position).",
         PARENTS.len()
